@@ -2,6 +2,7 @@
 // 1..3 waiters of every kind on their own threads against a resolver of every kind; whether a waiter subscribes
 // before, during or after the resolution is decided by the explored schedule, not by the script.
 #include "common_vrt.h"
+#include <atomic>
 #include <memory>
 
 namespace {
@@ -203,7 +204,59 @@ static void scenario(int nw, const int *wk, int rk) {
     vrt_outcome("released-on-thread %ld %ld %ld", (long)s[S_PATH], (long)s[S_PATH + 1], (long)s[S_PATH + 2]);
 }
 
+// call_fn_future_awaiter: a member function is the waiter; the awaiter owns the future it waits for (created by the
+// function handed to operator<<) and registers itself in the same step. The promise reaches the resolver thread from
+// inside that function, so the resolution can land anywhere in the registration.
+struct CallFnOwner {
+    cocls::suspend_point<void> done(cocls::future<Counted> &f) noexcept {
+        released(0, observe(f));
+        return {};
+    }
+};
+static void callfn_scenario(int rk) {
+    int64_t *s = vrt_scratch();
+    {
+        cocls::promise<Counted> slot;
+        std::atomic<int> have{0};
+        CallFnOwner owner;
+        auto aw = std::make_unique<cocls::call_fn_future_awaiter<&CallFnOwner::done>>(owner);
+        vstd::thread wt([&] {
+            vrt_label("w0");
+            *aw << [&] {
+                return cocls::future<Counted>([&](cocls::promise<Counted> p) {
+                    slot = std::move(p);
+                    have.store(1);
+                });
+            };
+        });
+        vstd::thread rt([&] {
+            vrt_label("resolver");
+            while (!have.load()) vrt_yield();
+            switch (rk) {
+                case R_VAL: slot(Counted(42)); break;
+                case R_EXC: slot(std::make_exception_ptr(TestError(77))); break;
+                case R_DROP: slot(cocls::drop); break;
+                default: {
+                    cocls::promise<Counted> q(std::move(slot));
+                    break;
+                }
+            }
+        });
+        rt.join();
+        wt.join();
+        Obs expect = rk == R_VAL ? Obs{1, 42} : rk == R_EXC ? Obs{2, 77} : Obs{3, 0};
+        VRT_CHECK(s[S_REL] != 0, "future/lost-wakeup", "the member-function waiter was never called although the future is resolved");
+        VRT_CHECK(s[S_REL] == 1, "future/duplicate-wakeup", "the member-function waiter was called %ld times", (long)s[S_REL]);
+        VRT_CHECK(s[S_KIND] == expect.kind && s[S_VAL] == expect.val, "future/wrong-result", "waiter saw kind=%ld val=%ld expected kind=%d val=%ld", (long)s[S_KIND], (long)s[S_VAL], expect.kind,
+                  expect.val);
+        aw.reset();
+    }
+    VRT_CHECK(Counted::live() == 0, "future/value-lifetime", "%ld Counted objects alive at the end", (long)Counted::live());
+    vrt_outcome("released-on-thread %ld", (long)s[S_PATH]);
+}
+
 VRT_REGISTER(reg_wake) {
+    for (int rk = 0; rk <= R_DESTROY; rk++) vrt::add(std::string("wake1_callfn_") + rk_names[rk], [=] { callfn_scenario(rk); });
     for (int rk = 0; rk < R_NK; rk++) {
         // one waiter: every kind
         for (int a = 0; a < W_NK; a++) {
